@@ -62,3 +62,20 @@ package aio
 
 //@ func (AIO).Shutdown
 //@ iface
+
+// A flush reaches every subsystem OrderedRange lists (C12: a partial store batch is released).
+//@ func (*aio).Flush
+//@ props C12
+//@ abstract-calls .*
+//@ requires a != nil
+//@ loop-complete 1
+//@ site loop 1 call Flush assert self == subsystem && arg0 == t
+//@ site loop 1 backedge assert itercalls("Flush") == 1
+//@ site call OrderedRange assert arg0 == a.subsystems
+
+// A completion handed back by a subsystem is put on the completion queue exactly once (C12).
+//@ func (*aio).EnqueueCQE
+//@ props C12
+//@ nopanic C13
+//@ requires a != nil && cqe != nil && a.cq != nil && !closed(a.cq)
+//@ ensures sends(a.cq) == 1
